@@ -875,6 +875,20 @@ func ruleU5(w *world.World, r *report.RuleResult) {
 // an element load to the loop's back edge that passes no pattern test of an element (a call whose
 // operands derive from the element: ContainsFunc with a closure capturing it, Match(elem), ...)?
 // Returns the last instruction of the offending back-edge predecessor, or nil.
+// isUserField: an access to a field of the ACL user record.
+func isUserField(v ssa.Value) bool {
+	var t types.Type
+	switch x := v.(type) {
+	case *ssa.FieldAddr:
+		t = x.X.Type()
+	case *ssa.Field:
+		t = x.X.Type()
+	default:
+		return false
+	}
+	return world.TypeIs(t, "/acl", "User")
+}
+
 func elementCheckBypass(fn *ssa.Function, isElem func(ssa.Value) bool) ssa.Instruction {
 	const TESTED world.Facts = 1
 	// element loads
@@ -906,6 +920,13 @@ func elementCheckBypass(fn *ssa.Function, isElem func(ssa.Value) bool) ssa.Instr
 		}
 		if !(strings.HasPrefix(name, "slices.ContainsFunc") || strings.HasPrefix(name, "slices.Contains[") || name == "Match" || strings.HasPrefix(name, "slices.IndexFunc")) {
 			return false
+		}
+		// a search counts as the authorization test only when the collection searched is one of the
+		// user's pattern lists (a membership test against some other list, e.g. "already seen", is not)
+		if strings.HasPrefix(name, "slices.") {
+			if len(c.Call.Args) == 0 || !derivesFrom(c.Call.Args[0], isUserField, 0) {
+				return false
+			}
 		}
 		for _, a := range c.Call.Args {
 			if derivesFrom(a, isElem, 0) {
